@@ -32,7 +32,9 @@ RULE = ("targeted programs: one or two sub recipes (hidden ingredient / named / 
         "unknown or zero total) split into a random multiset of proportion, percentage, quantity (same, convertible, "
         "incompatible, free-form, missing unit) and remainder uses in random order, sums on and next to 0.98 / 1 / 1.02, "
         "uses inside sub recipes, single uses that fold; plus random programs of gen/programs.py; each at scale None and "
-        "at 1-2 scale factors (int, Fraction, float).  Non-trivial: at least one reference or one lint")
+        "at 1-2 scale factors (int, Fraction, float); plus an always-run strict stream (STRICT_INVARIANCE) in which the "
+        "verdict kinds must be equal at every scale even through float unit conversions (known finding F20).  "
+        "Non-trivial: at least one reference or one lint")
 
 IMPORTS = ["From RG Require Import Model.Recipe Model.Units Model.Lint."]
 
@@ -204,15 +206,19 @@ def has_floats(recipes: List[Any]) -> bool:
     return any(isinstance(v, float) for v in C03.all_numbers(recipes))
 
 
-def make_case(texts: List[str], recipes: List[Any], k: Optional[Any], tag: str) -> Case:
+def make_case(texts: List[str], recipes: List[Any], k: Optional[Any], tag: str, strict: bool = False) -> Case:
+    """strict: the property's last sentence taken literally - the verdict kinds at scale k must equal those at scale 1
+    even when a unit conversion goes through a float factor (the always-run stream STRICT_INVARIANCE and replays of
+    inputs that carry "scale"); otherwise invariance is only demanded when every conversion factor is exact."""
     import recipe_grid.recipe as R
     viol = None
     target = recipes
+    kkey = "scale" if strict else "k"
     if k is not None:
         try:
             target = [r.scale(k) for r in recipes]
         except R.RecipeInvariantError as e:
-            return Case(input={"sources": texts, "k": c.num_json(k)}, coq_in="(None, [])", coq_out="(LOk [])",
+            return Case(input={"sources": texts, kkey: c.num_json(k)}, coq_in="(None, [])", coq_out="(LOk [])",
                         impl=type(e).__name__, violation=f"scaling raised {type(e).__name__}", tags=[tag])
     res = run_lint(target)
     if res[0] == "exc":
@@ -226,13 +232,15 @@ def make_case(texts: List[str], recipes: List[Any], k: Optional[Any], tag: str) 
             # exact data, exact positive factor, exact unit conversions: the verdicts must not move at all
             base = run_lint(recipes)
             _bspec, _bamb, bfc = lint_spec(recipes)
-            if base[0] == "ok" and not bfc and sorted(x for x, _ in base[1]) != sorted(x for x, _ in res[1]):
+            if base[0] == "ok" and (strict or not bfc) and sorted(x for x, _ in base[1]) != sorted(x for x, _ in res[1]):
                 viol = f"lint kinds change under scaling by {k!r}: {[x for x, _ in base[1]]} -> {[x for x, _ in res[1]]}"
     kin = c.opt(c.num(k) if k is not None else None, "num")
     tags = [tag, "scaled-" + type(k).__name__ if k is not None else "unscaled"]
     if res[0] == "ok":
         tags += ["lint-" + kn for kn, _ in res[1]] or ["no-lint"]
-    return Case(input={"sources": texts, "k": c.num_json(k) if k is not None else None},
+    if strict:
+        tags.append("strict-invariance")
+    return Case(input={"sources": texts, kkey: c.num_json(k) if k is not None else None},
                 coq_in=f"({kin}, {ser.blocks(recipes)})", coq_out=coq_result(res),
                 impl=res[1] if res[0] == "exc" else [list(x) for x in res[1]], violation=viol,
                 nontrivial=C08.has_reference(recipes) or (res[0] == "ok" and bool(res[1])), tags=tags)
@@ -459,6 +467,12 @@ HAND_SCALED = [
 ]
 
 
+# Always-run stream in which scale invariance is demanded literally (also through float unit conversions).
+STRICT_INVARIANCE = [
+    (["45359237g spam\nfry(1lb spam)\nfry(2lb spam)\nfry(99997lb spam)\nbake(remaining spam)"], Fraction(5, 3)),
+]
+
+
 def mk_suite() -> Suite:
     return Suite(name="lint", imports=IMPORTS, in_ty="(option num * list (list node))", out_ty="(lres (list lint))",
                  check="check_lint", show="lint_scaled", shard=60)
@@ -485,6 +499,9 @@ def suites(tier: str, seed: int) -> List[Suite]:
         st, recipes = C08._compile_job(texts)
         for k in ks:
             su.cases.append(make_case(texts, recipes, k, "hand"))
+    for texts, k in STRICT_INVARIANCE:
+        st, recipes = C08._compile_job(texts)
+        su.cases.append(make_case(texts, recipes, k, "hand", strict=True))
     results = C08.compile_many([t for t, _ in jobs])
     for (texts, tag), (st, recipes) in zip(jobs, results):
         if st != "ok":
@@ -501,6 +518,8 @@ def replay(inp: Any) -> Case:
     st, val = C08._compile_job(inp["sources"])
     if st != "ok":
         raise ValueError(f"sources no longer compile: {val}")
+    if inp.get("scale") is not None:      # {"sources": [...], "scale": num}: invariance demanded literally
+        return make_case(inp["sources"], val, c.num_unjson(inp["scale"]), "replay", strict=True)
     k = c.num_unjson(inp["k"]) if inp.get("k") is not None else None
     return make_case(inp["sources"], val, k, "replay")
 
@@ -566,15 +585,47 @@ def remainder_points(recipes: List[Any]) -> Dict[str, List[Tuple[Fraction, float
     return out
 
 
+def match_float_conversion_invariance(case: Case) -> bool:
+    """The verdict kinds differ between scale 1 and scale k (exact data, exact positive k), at least one use/total pair
+    is converted through a float factor (lb, oz <-> g, kg; cup; pint), and nothing else is wrong at scale k."""
+    inp = case.input
+    kj = inp.get("scale") if inp.get("scale") is not None else inp.get("k")
+    if kj is None:
+        return False
+    k = c.num_unjson(kj)
+    if isinstance(k, float) or k <= 0:
+        return False
+    st, recipes = C08._compile_job(inp["sources"])
+    if st != "ok" or has_floats(recipes):
+        return False
+    base = run_lint(recipes)
+    scaled_recipes = [r.scale(k) for r in recipes]
+    scaled = run_lint(scaled_recipes)
+    if base[0] != "ok" or scaled[0] != "ok":
+        return False
+    if sorted(x for x, _ in base[1]) == sorted(x for x, _ in scaled[1]):
+        return False
+    _spec, _amb, float_conv = lint_spec(recipes)
+    if not float_conv:
+        return False
+    spec_k, amb_k, _fc = lint_spec(scaled_recipes)
+    if not amb_k and sorted(spec_k) != sorted(scaled[1]):
+        return False        # a decisive disagreement with the documented verdicts: a different defect
+    return True
+
+
 def known_match(finding: Any, case: Case) -> bool:
+    if finding.get("matches") == "scale_invariance_float_conversion":
+        return match_float_conversion_invariance(case)
     if finding.get("matches") != "remainder_after_exact_full_use_float_sum_below_one":
         return False
     inp = case.input
     st, recipes = C08._compile_job(inp["sources"])
     if st != "ok":
         return False
-    if inp.get("k") is not None:
-        recipes = [r.scale(c.num_unjson(inp["k"])) for r in recipes]
+    kj = inp.get("k") if inp.get("k") is not None else inp.get("scale")
+    if kj is not None:
+        recipes = [r.scale(c.num_unjson(kj)) for r in recipes]
     res = run_lint(recipes)
     if res[0] != "ok":
         return False
